@@ -187,12 +187,86 @@ def mech_of(feats, f):
     return None
 
 
+def other_process_job(arg):
+    """A long-lived process produces the path and evaluates its reader; another process keeps an edited producer at the
+    same path; the first process (same store object, modules untouched) evaluates the reader again: the load must see
+    the other process's value and a kept reader must be re-evaluated."""
+    import os
+
+    from vp.worker import run_segment
+
+    placement, producer, edit, store, idx = arg
+    rep = core.Report("C09")
+    rep.evaluations = 1
+    p0 = build("c9o_%d" % idx, placement, producer, "earlier_eval", False, "assign")
+    p1, d = edits_of(p0, edit)
+    ids = p0["_ids"]
+
+    def ent(p, fid):
+        f = p["fns"][fid]
+        return {"style": "eval", "module": gen.modname(p, f["module"]), "func": f["name"], "args_src": "()"}
+
+    case = {"other_process": list(arg)}
+    name = "other-process:%s/%s/%s on %s" % (placement, producer, edit, store)
+    with core.Scratch("vp_c09o_") as td:
+        ra, rb, rr, sdir = (os.path.join(td, x) for x in ("a", "b", "r", "store"))
+        for x in (ra, rb, rr, sdir):
+            os.makedirs(x)
+        side = {"mode": "impl", "root": rb, "accept": [p0["pkg"]], "store": {"kind": store, "dir": sdir},
+                "steps": [{"write": gen.render(p1), "how": "import", "modules": gen.import_order(p1), "entry": ent(p1, ids["pmain"])}]}
+        seg = {"mode": "impl", "root": ra, "accept": [p0["pkg"]], "store": {"kind": store, "dir": sdir},
+               "steps": [{"write": gen.render(p0), "how": "import", "modules": gen.import_order(p0), "entry": ent(p0, ids["pmain"])},
+                         {"how": "none", "entry": ent(p0, ids["rmain"])},
+                         {"how": "none", "side": side, "entry": ent(p0, ids["rmain"])},
+                         {"how": "none", "entry": ent(p0, ids["rmain"])}]}
+        a = core.fork_call(run_segment, seg, timeout=600)
+        # reference: what the reader returns once the path serves the edited producer's value (the reader's own code is the same in both versions)
+        ref = core.fork_call(run_segment, {"mode": "ref", "root": rr, "accept": [], "steps": [
+            {"write": gen.render(p0), "how": "import", "modules": gen.import_order(p0), "entry": ent(p0, ids["pmain"])}, {"how": "none", "entry": ent(p0, ids["rmain"])},
+            {"write": gen.render(p1), "how": "reload", "modules": gen.import_order(p1), "entry": ent(p1, ids["pmain"])}, {"how": "none", "entry": ent(p1, ids["rmain"])}]}, timeout=300)
+    if isinstance(a, core.JobFailed) or isinstance(ref, core.JobFailed):
+        rep.inconclusive.append("other-process worker failed")
+        return rep
+    for o in a["steps"] + ref["steps"]:
+        if "setup_error" in o:
+            rep.inconclusive.append("setup error: %s" % o["setup_error"][-300:])
+            return rep
+    s2 = a["steps"][2]
+    if "side_error" in s2 or "side" not in s2 or s2["side"]["steps"][0].get("result", ("exc",))[0] != "ok":
+        rep.inconclusive.append("side process failed: %s" % (s2.get("side_error") or s2.get("side", {}).get("steps", [{}])[0].get("result"),))
+        return rep
+    want_before, want_after = ref["steps"][1]["result"], ref["steps"][3]["result"]
+    if want_before[0] != "ok" or want_after[0] != "ok" or want_before[1] == want_after[1]:
+        rep.inconclusive.append("reference values do not distinguish the two producers")
+        return rep
+    rep.count("other_process_updates")
+    r1 = a["steps"][1]["result"]
+    if r1[0] != "ok" or pickle.loads(r1[1]) != pickle.loads(want_before[1]):
+        rep.violate("%s: reader before the other process returned %s" % (name, r1[2][:120]), case, mechanism="other-process-baseline-wrong")
+        return rep
+    for si in (2, 3):
+        r = a["steps"][si]["result"]
+        rep.count("reads_after_other_process")
+        if r[0] != "ok" or pickle.loads(r[1]) != pickle.loads(want_after[1]):
+            rep.violate("%s: after another process kept a new result at %s, evaluation %d of the reader in the long-lived process returned %s, expected %s" % (
+                name, PATH, si - 1, r[2][:110] if r[0] == "ok" else "%s(%s)" % (r[1], r[2][:80]), want_after[2][:110]), case, mechanism="load-stale-after-other-process")
+            return rep
+    if placement in ("kept", "kept_helper"):
+        rep.count("reader_invalidation_checks")
+        if "reader" not in a["steps"][2]["log"]:
+            rep.violate("%s: the kept reader was not re-evaluated after another process changed what %s serves" % (name, PATH), case, mechanism="reader-not-invalidated")
+        if "reader" in a["steps"][3]["log"]:
+            rep.violate("%s: the kept reader was re-evaluated although %s did not change" % (name, PATH), case, mechanism="reader-recomputed")
+    rep.nontriv(("c09other", placement, producer, edit, store))
+    return rep
+
+
 def run(tier, seed):
     rep = core.Report("C09")
     rep.rule = (
         "load written as an assignment / positional argument / keyword argument / inside a subscript / inside str.format(), placed at top level of the evaluated function / in a non-kept helper / two helpers down / inside a kept function / in a helper of a kept function x producer (data function, keep call) x "
         "timing (earlier in the same evaluation, later in the same evaluation [must be rejected], by an earlier evaluation, never) x edits (producer body, producer variable, producer callee, unrelated) x "
-        "stores memory/local x fresh/populated x one or two modules; histories with re-evaluation, edit, revert, restart. "
+        "stores memory/local x fresh/populated x one or two modules; histories with re-evaluation, edit, revert, restart; plus a second process keeping an edited producer between two evaluations of the reader by a long-lived process (stores local, local+cache, DBFS fake). "
         "distinct_nontrivial = distinct combinations fully observed."
     )
     jobs = []
@@ -215,14 +289,24 @@ def run(tier, seed):
                             for fi, form in enumerate(gen.LOAD_FORMS[1:]):
                                 if edit == "prod_const" and store == "local" and timing in ("same_before", "earlier_eval", "same_after") and (tier != "quick" or (idx + fi) % 2 == 0 or placement == "kept"):
                                     jobs.append((placement, producer, timing, edit, store, populated, idx % 2 == 0, idx * 10 + fi + 1, form))
-    results = core.fork_map(case_job, jobs, timeout=900)
-    for j, r in zip(jobs, results):
+    ojobs = []
+    for placement in PLACEMENTS:
+        for producer in PRODUCERS:
+            for ei, edit in enumerate(("prod_const", "prod_var", "prod_callee")):
+                for si, store in enumerate(("local", "local_lru", "dbfs")):
+                    idx += 1
+                    if tier == "quick" and (ei + si + len(placement)) % 3 == 0 and store != "local_lru":
+                        continue
+                    ojobs.append((placement, producer, edit, store, idx))
+    results = core.fork_map(lambda j: other_process_job(j[1]) if j[0] == "o" else case_job(j[1]), [("c", j) for j in jobs] + [("o", j) for j in ojobs], timeout=900)
+    for j, r in zip(jobs + [None] * len(ojobs), results):
         if isinstance(r, core.JobFailed):
             rep.inconclusive.append("case: %r" % (r,))
             continue
         rep.merge(r)
-        rep.bump("placement", j[0])
-        rep.bump("timing", j[2])
+        if j is not None:
+            rep.bump("placement", j[0])
+            rep.bump("timing", j[2])
     rep.sample({"placement": jobs[0][0], "producer": jobs[0][1], "timing": jobs[0][2], "edit": jobs[0][3], "program": gen.render(build("c9_sample", "kept", "keep", "same_before"))["c9_sample/l0.py"][-900:]})
     rep.assumptions = ["loads use literal paths, one load site per path and evaluation"]
     return rep
@@ -230,6 +314,9 @@ def run(tier, seed):
 
 def replay(payload):
     rep = core.Report("C09")
+    if "other_process" in payload["case"]:
+        rep.merge(other_process_job(tuple(payload["case"]["other_process"])))
+        return rep
     c = payload["case"]["case"]
     name = c["name"].split(":", 1)[1]
     placement, producer, timing, edit = name.split("/")[:4]
